@@ -195,7 +195,16 @@ func TestVerifC04_ScanMerge(t *testing.T) {
 		}
 		parts := rapid.SampledFrom([]int{1, 2, 3, 7, 8, 32, 40}).Draw(t, "partitions")
 		probe := rapid.SampledFrom([]string{"sequential", "reverse", "random", "length-first", "last-first"}).Draw(t, "probe")
-		m := NewMatcher(NewChunkCache(), nil, s.sort, s.tac, util.NewEventBox(), revision{})
+		cache := NewChunkCache()
+		priorOpposite := rapid.IntRange(0, 2).Draw(t, "priorSearchWithOppositeSort") == 0
+		if priorOpposite {
+			// toggle-sort: the same query was searched before with the other sort setting, sharing the chunk cache
+			m0 := NewMatcher(cache, nil, !s.sort, s.tac, util.NewEventBox(), revision{})
+			m0.partitions = parts
+			m0.slab = make([]*util.Slab, parts)
+			m0.scan(MatchRequest{chunks: chunks, pattern: s.pattern(cache, true), sort: !s.sort})
+		}
+		m := NewMatcher(cache, nil, s.sort, s.tac, util.NewEventBox(), revision{})
 		m.partitions = parts
 		m.slab = make([]*util.Slab, parts)
 		pat := s.pattern(m.cache, true)
@@ -211,7 +220,7 @@ func TestVerifC04_ScanMerge(t *testing.T) {
 		}
 		nt := len(want) >= 2 && ties && (nonEmptyParts >= 2 || merger.pass)
 		vstat.Case("C04/scan-merge", s.String()+fmt.Sprint(parts, probe, s.lines), nt, fmt.Sprintf("chunks=%d", imin(len(chunks), 5)), fmt.Sprintf("partitions=%d", parts), "probe="+probe,
-			fmt.Sprintf("tac=%v", s.tac), fmt.Sprintf("sorted=%v", sorted), fmt.Sprintf("pass=%v", merger.pass), fmt.Sprintf("first_chunk_partial=%v", len(chunks) > 1 && chunks[0].count < chunkSize))
+			fmt.Sprintf("tac=%v", s.tac), fmt.Sprintf("sorted=%v", sorted), fmt.Sprintf("pass=%v", merger.pass), fmt.Sprintf("first_chunk_partial=%v", len(chunks) > 1 && chunks[0].count < chunkSize), fmt.Sprintf("prior_opposite_sort=%v", priorOpposite))
 		if nt && vstat.WantSample("C04/scan-merge") {
 			vstat.Sample("C04/scan-merge", map[string]interface{}{"setup": s.String(), "partitions": parts, "probe": probe, "results": len(want)})
 		}
